@@ -38,7 +38,9 @@ FOREIGN = [("diff.other.command", "other-diff"), ("merge.other.driver", "other-m
            ("merge.other.name", "some other driver"),
            ("difftool.meld.cmd", 'meld "$LOCAL" "$REMOTE"'), ("mergetool.kdiff3.path", "/usr/bin/kdiff3"),
            ("core.editor", "vi"), ("alias.co", "checkout"), ("diff.tool", "vimdiff"), ("merge.conflictstyle", "diff3"),
-           ("diff.renames", "true"), ("mergetool.keepbackup", "false"), ("difftool.trustexitcode", "true")]
+           ("diff.renames", "true"), ("mergetool.keepbackup", "false"), ("difftool.trustexitcode", "true"),
+           ("difftool.meld.prompt", "true"), ("difftool.nbdimex.cmd", "other-tool $LOCAL $REMOTE"), ("mergetool.nbdime-old.cmd", "legacy"),
+           ("diff.jupyternotebookx.command", "someone-elses-driver"), ("merge.jupyternotebook-custom.driver", "custom %O %A %B")]
 
 
 class SimKill(BaseException):
@@ -108,6 +110,19 @@ def generate(rng, index, cfg):
              "xdg": swarm["xdg"], "custom_attributesfile": swarm["custom_attributesfile"]}
     ops = []
     for _ in range(rng.randint(1, cfg["max_cmds"])):
+        if ops and rng.random() < 0.25:
+            # the user changes a setting between two nbdime commands (switches default tool, flips a prompt, ...)
+            key = rng.choice(["merge.tool", "diff.guitool", "difftool.prompt", "mergetool.prompt"] + [k for k, _ in FOREIGN])
+            if key in ("merge.tool", "diff.guitool"):
+                val = rng.choice(["meld", "kdiff3", "nbdime", None])
+            elif key.endswith(".prompt"):
+                val = rng.choice(["true", "false", None])
+            elif key.endswith((".cmd", ".command", ".driver", ".path", ".name", ".editor", ".co")):
+                val = rng.choice([dict(FOREIGN)[key], "changed-by-user", None])
+            else:
+                val = rng.choice([dict(FOREIGN)[key], None])      # (only values git accepts for keys it interprets)
+            ops.append({"op": "user", "scope": rng.choice(["local", "global"]), "key": key, "value": val})
+            continue
         comp = rng.choice(COMPONENTS)
         op = {"op": "cmd", "component": comp, "enable": rng.random() < 0.6,
               "global": rng.random() < swarm["p_global"],
@@ -558,8 +573,16 @@ class Runner:
         self.setup()
         self.log.ev("start", swarm=self.trace.get("swarm"), world=self.trace["world"])
         for op in self.trace["ops"]:
+            if op["op"] == "user":
+                if op["value"] is None:
+                    self.w.git("config", "--" + op["scope"], "--unset-all", op["key"], check=False)
+                else:
+                    self.w.git("config", "--" + op["scope"], op["key"], op["value"], check=False)
+                self.stat("user_edits_between_commands")
+                self.log.ev("user", key=op["key"], scope=op["scope"], value=op["value"])
+                continue
             self.do_cmd(op)
-        sample = {"world": self.trace["world"], "ops": [{k: v for k, v in o.items() if k != "op"} for o in self.trace["ops"][:4]]}
+        sample = {"world": self.trace["world"], "ops": [dict(o) for o in self.trace["ops"][:5]]}
         return {"violations": self.violations, "digest": self.log.digest(), "events": self.log.n,
                 "stats": self.stats, "distinct": {k: sorted(v) for k, v in self.distinct.items()}, "sample": sample}
 
@@ -575,6 +598,8 @@ def shrink(trace, fails, budget):
     trace = dict(trace, ops=ops)
     # drop faults, flags
     for i, op in enumerate(list(trace["ops"])):
+        if op["op"] != "cmd":
+            continue
         for key, val in (("fault", None), ("outside_repo", False), ("set_default", False), ("global", False)):
             if op.get(key) not in (val, None) and budget.left():
                 cand = list(trace["ops"])
